@@ -1133,6 +1133,21 @@ example : ∃ u0 ch, nested = parseChain u0 ch ∧ IsOperand u0 ∧ ∀ x ∈ ch
   obtain ⟨u0, _, ch, _, _, he, h0, hch, _⟩ := parse_uses_chain _ _ _ _ hb
   exact ⟨u0, ch, he, h0, hch⟩
 
+/-- `unary_tighter` on `-a ** b`: the unary-level parse stops in front of ` ** b`; its operand `a` is a chain operand -/
+example : IsOperand (v "a") ∧ IsOperand (.unary .neg (v "a")) :=
+  unary_tighter 7 "-a ** b".toList .neg (v "a") " ** b".toList (by kernel_rfl)
+
+/-- `group_overrides` on `(a + b) * c`: the inside is an independent binary-level parse of `a + b) * c` up to the `)` -/
+example : ∃ inner nt, parseBinary 10 "a + b) * c".toList = .ok (inner, nt) ∧ scanClose nt = some " * c".toList ∧
+    Expr.group (.binary .add (v "a") (v "b")) = .group inner ∧ IsOperand (Expr.group (.binary .add (v "a") (v "b"))) ∧ WFPrec inner :=
+  group_overrides 10 "(a + b) * c".toList "a + b) * c".toList _ " * c".toList (by kernel_rfl) (by kernel_rfl)
+
+/-- `fuel_sufficient` / `reject_is_parser_error` on a rejected text (the failure is a real parser error, not the fuel marker) -/
+example : parseBinary 4 "a + ".toList ≠ .error (fuelMsg, []) := (fuel_sufficient 4 "a + ".toList (by decide) []).2
+
+example : ∃ line, line <:+ "a + ".toList ∧ 4 + line.length = "a + ".length + 1 :=
+  (reject_is_parser_error "a + " ⟨"Syntax error", 4⟩ (by kernel_rfl)).2.1
+
 /-- … and the rejections: trailing text, unbalanced parenthesis, a one-letter call, an operator without operand -/
 example : parseExpr "a b" = .error ⟨"Syntax error", 2⟩ := by kernel_rfl
 example : parseExpr "(a" = .error ⟨"Unmatched parenthesis", 1⟩ := by kernel_rfl
